@@ -250,6 +250,16 @@ Theorem C02_parse_unparse2_partial : forall cx d,
 Proof. exact parse_unparse2. Qed.
 Print Assumptions C02_parse_unparse2_partial.
 
+(** the same in BOTH parsing modes (strict and tolerant): the strict parse of a
+    document of the grammar raises no error, and then the tolerant parser returns the
+    same tree (C06's strict/tolerant agreement) *)
+Theorem C02_parse_unparse2_modes_partial : forall cx d tol,
+  ok_doc2 cx d = true ->
+  parse_top (unparse2 d) tol cx (walker_state cx)
+  = Ok (ONode (Some (gen_nodelist 0 (fst (tree_of2 cx (walker_state cx) 0 d))))) (length (unparse2 d)).
+Proof. exact parse_unparse2_modes. Qed.
+Print Assumptions C02_parse_unparse2_modes_partial.
+
 (** ** The simulation behind it (any [Std] state, any collector with
     [opts_ok], any offset of any input, any follow string) *)
 Theorem C02_items_simulation2_partial : forall s cx l ps o st pos fol k r,
